@@ -308,12 +308,36 @@ func checkC03(c *Ctx, r *Report) {
 						fieldPath = pathOf(st.Addr)
 					}
 				}
-				isRel := func(in ssa.Instruction) bool {
+				isRelDirect := func(in ssa.Instruction) bool {
 					if !isCallTo(in, p.rel...) {
 						return false
 					}
 					rp := pathOf(callArgs(in.(ssa.CallInstruction))[0])
 					return fieldPath != "" && (rp == fieldPath || strings.HasPrefix(rp, fieldPath+"."))
+				}
+				// ... or a local closure / helper of the package every path of which drops that reference
+				isRel := func(in ssa.Instruction) bool {
+					if isRelDirect(in) {
+						return true
+					}
+					ci, ok := in.(ssa.CallInstruction)
+					if !ok {
+						return false
+					}
+					g := ci.Common().StaticCallee()
+					if g == nil {
+						if mc, isMC := strip2(ci.Common().Value).(*ssa.MakeClosure); isMC {
+							g, _ = mc.Fn.(*ssa.Function)
+						}
+					}
+					if g == nil || g.Blocks == nil || g.Pkg == nil || g.Pkg.Pkg.Path() != Mod+rmP {
+						return false
+					}
+					if len(findInstrs(g, isRelDirect)) == 0 {
+						return false
+					}
+					w, _ := (&Cut{Fn: g, Target: func(x ssa.Instruction) bool { _, isRet := x.(*ssa.Return); return isRet }, Sep: isRelDirect}).Run(c)
+					return w == ""
 				}
 				q := &Cut{Fn: f, From: []ssa.Instruction{acq.(ssa.Instruction)}, Sep: isRel, Target: func(in ssa.Instruction) bool {
 					ret, ok := in.(*ssa.Return)
@@ -607,6 +631,179 @@ func checkC03(c *Ctx, r *Report) {
 	}
 
 	// ---- R6 ---------------------------------------------------------------
+	// ---- R7 ---------------------------------------------------------------
+	r7 := r.Rule("C03-R7", "E7b/E5", 8, "span owners receive the full operation (never a *ForChild call, which stops one level up); connLimiter counts a connection only while the count is below the cap it is compared with")
+	{
+		// siblings: s.owner.X(..) in the owner branch of every operation, e.X-ForChild(..) on the edges
+		nOwner := 0
+		for _, f := range c.FnsOfPkg(rmP) {
+			allInstrs(f, func(in ssa.Instruction) {
+				ci, ok := in.(ssa.CallInstruction)
+				if !ok {
+					return
+				}
+				sc := ci.Common().StaticCallee()
+				if sc == nil || sc.Signature.Recv() == nil || len(ci.Common().Args) == 0 {
+					return
+				}
+				if !isLoadOfField(rsT + ".owner")(strip2(ci.Common().Args[0])) {
+					return
+				}
+				nOwner++
+				r7.Check(!strings.HasSuffix(sc.Name(), "ForChild"), fnKey(f)+": the owner of a span gets the whole operation ("+sc.Name()+")", instrPos(in), 1, "",
+					"a *ForChild call adjusts only the owner's own counters: the owner's parents (peer, system, ...) are never told, so nested spans leak or double-count one level up", sc.Name())
+			})
+		}
+		r7.Check(nOwner >= 7, "calls on resourceScope.owner", token.NoPos, nOwner, "", "", "")
+	}
+	if f := r7.need(m("connLimiter", "addConn")); f != nil {
+		isLimit := func(v ssa.Value) bool { fl, _ := loadOfField(strip2(v)); return fl != nil && fl.Name() == "ConnCount" }
+		// increments: x = x + 1 on a slice element or a map entry
+		type inc struct {
+			in  ssa.Instruction
+			old ssa.Value
+		}
+		var incs []inc
+		allInstrs(f, func(in ssa.Instruction) {
+			var val ssa.Value
+			switch x := in.(type) {
+			case *ssa.Store:
+				if _, ok := x.Addr.(*ssa.IndexAddr); ok {
+					val = x.Val
+				}
+			case *ssa.MapUpdate:
+				val = x.Value
+			}
+			if bo, ok := val.(*ssa.BinOp); ok && bo.Op == token.ADD {
+				if k, isC := constInt(bo.Y); isC && k == 1 {
+					incs = append(incs, inc{in, bo.X})
+				}
+			}
+		})
+		r7.Check(len(incs) >= 2, m("connLimiter", "addConn")+": count increments (network-prefix and per-subnet)", f.Pos(), len(incs), "", "", "")
+		isCount := func(v ssa.Value) bool {
+			v = strip2(v)
+			if ld, ok := v.(*ssa.UnOp); ok && ld.Op == token.MUL {
+				if _, isIA := ld.X.(*ssa.IndexAddr); isIA && isIntType(ld.Type()) {
+					return true
+				}
+			}
+			if lk, ok := v.(*ssa.Lookup); ok && isIntType(lk.Type()) {
+				return true
+			}
+			if ex, ok := v.(*ssa.Extract); ok && ex.Index == 0 {
+				if _, isLk := ex.Tuple.(*ssa.Lookup); isLk && isIntType(ex.Type()) {
+					return true
+				}
+			}
+			return false
+		}
+		isCountPlus1 := func(v ssa.Value) bool {
+			bo, ok := v.(*ssa.BinOp)
+			if !ok || bo.Op != token.ADD {
+				return false
+			}
+			k, isC := constInt(bo.Y)
+			return isC && k == 1 && isCount(bo.X)
+		}
+		below := anyEdge(edgeExcl(isCountPlus1, isLimit, ordGT), edgeExcl(isCount, isLimit, ordEQ, ordGT))
+		// which loop (over which slice) an instruction sits in
+		rangedOver := func(h *ssa.BasicBlock) ssa.Value {
+			if h == nil {
+				return nil
+			}
+			i := ifOf(h)
+			if i == nil {
+				return nil
+			}
+			bo, ok := i.Cond.(*ssa.BinOp)
+			if !ok || bo.Op != token.LSS {
+				return nil
+			}
+			ln, ok := bo.Y.(*ssa.Call)
+			if !ok || calleeKey(ln) != "builtin.len" {
+				return nil
+			}
+			return strip2(ln.Call.Args[0])
+		}
+		// check loops: loops in which a count is compared with ConnCount
+		type chk struct {
+			h    *ssa.BasicBlock
+			over ssa.Value
+			ok   bool
+		}
+		var checks []chk
+		seenH := map[*ssa.BasicBlock]bool{}
+		for _, b := range f.Blocks {
+			if ifOf(b) == nil {
+				continue
+			}
+			isChk := false
+			for s := range b.Succs {
+				if below(b, s) {
+					isChk = true
+				}
+			}
+			if !isChk {
+				continue
+			}
+			h := iterationOf(f, b)
+			if h == nil || seenH[h] {
+				continue
+			}
+			seenH[h] = true
+			// does every iteration that goes on (next element, or normal loop exit) pass the test? (needed when the
+			// counting happens in a second loop over the same list)
+			w, _ := (&Cut{Fn: f, FromEdges: []CFGEdge{{h, 0}}, EdgeCut: below, Target: func(in ssa.Instruction) bool {
+				return in.Block() == h && instrIndex(in) == 0
+			}}).Run(c)
+			checks = append(checks, chk{h, rangedOver(h), w == ""})
+		}
+		for _, i := range incs {
+			// a slice element count: counted only past the test of that very element (same index), loop or no loop
+			if st, isSt := i.in.(*ssa.Store); isSt {
+				ia := st.Addr.(*ssa.IndexAddr)
+				sameIdx := func(v ssa.Value) bool {
+					ld, ok := strip2(v).(*ssa.UnOp)
+					if !ok || ld.Op != token.MUL {
+						return false
+					}
+					a, ok := ld.X.(*ssa.IndexAddr)
+					return ok && a.Index == ia.Index && isIntType(ld.Type())
+				}
+				plus1 := func(v ssa.Value) bool {
+					bo, ok := v.(*ssa.BinOp)
+					if !ok || bo.Op != token.ADD {
+						return false
+					}
+					k, isC := constInt(bo.Y)
+					return isC && k == 1 && sameIdx(bo.X)
+				}
+				r7.guard(f, "counts[i]++", []ssa.Instruction{i.in}, "counts[i] + 1 <= limits[i].ConnCount", anyEdge(edgeExcl(plus1, isLimit, ordGT), edgeExcl(sameIdx, isLimit, ordEQ, ordGT)), nil)
+				continue
+			}
+			h := iterationOf(f, i.in.Block())
+			over := rangedOver(h)
+			// counted in the loop that tested it, or in a later loop over the very same list, entered only after the test loop
+			ok := false
+			for _, ck := range checks {
+				if over == nil || ck.over != over {
+					continue
+				}
+				if ck.h == h {
+					// counted in the iteration that tested this very element
+					w, _ := (&Cut{Fn: f, FromEdges: []CFGEdge{{h, 0}}, EdgeCut: below, Target: isInstr(i.in)}).Run(c)
+					ok = ok || w == ""
+				} else if ck.ok {
+					// counted in a later loop over the same list: the test loop tests every element and comes first
+					w, _ := (&Cut{Fn: f, Target: isInstr(i.in), Sep: isInstr(ck.h.Instrs[0])}).Run(c)
+					ok = ok || w == ""
+				}
+			}
+			r7.Check(ok, m("connLimiter", "addConn")+": a count is incremented only for a limit list whose every entry passed count + 1 <= ConnCount", instrPos(i.in), 2, "", "the limiter admits one connection more than the cap (or counts without testing)", "")
+		}
+	}
+
 	r6 := r.Rule("C03-R6", "E3", 6, "counters of `resources` written only by its own methods and zeroed in doneUnlocked")
 	for _, fld := range []string{"nconnsIn", "nconnsOut", "nstreamsIn", "nstreamsOut", "nfd", "memory"} {
 		key := resT + "." + fld
@@ -640,4 +837,28 @@ func embeddingBase(v ssa.Value) ssa.Value {
 		}
 	}
 	return v
+}
+
+// iterationOf: the header of the innermost loop whose iteration block b belongs to — b is dominated by a successor
+// of the header that lies in the loop body. Unlike the natural loop this includes blocks that leave the loop
+// (`if bad { return }` inside the body).
+func iterationOf(f *ssa.Function, b *ssa.BasicBlock) *ssa.BasicBlock {
+	for h := b; h != nil; h = h.Idom() {
+		isHeader := false
+		for _, p := range h.Preds {
+			if h.Dominates(p) {
+				isHeader = true
+			}
+		}
+		if !isHeader {
+			continue
+		}
+		_, body := innermostLoopWithHeader(f, h)
+		for _, s := range h.Succs {
+			if body[s] && s != h && s.Dominates(b) {
+				return h
+			}
+		}
+	}
+	return nil
 }
